@@ -41,7 +41,7 @@ def cname(t):
     return (t.get("callee") or "?").rsplit("::", 1)[-1]
 
 
-def check(ctx):
+def _check_own(ctx):
     prog = ctx.prog
     R = Roles(prog)
 
@@ -153,3 +153,9 @@ def check(ctx):
         ctx.check(good, "chunk-clean-on-ok", "rabuf::Chunk::write",
                   "rabuf's Chunk::write marks a chunk clean on a path that is not the Ok arm of its write_all: a failed "
                   "write-back would lose the chunk's data for later flushes", where=where(f))
+
+
+def check(ctx):
+    _check_own(ctx)
+    from .engine import import_rules
+    import_rules(ctx, "c03", {"dirty-raised"})
